@@ -141,9 +141,9 @@ func c11AbeScenarios(t testing.TB) []sched.Scenario {
 		return []interface{}{s.policy.Satisfaction(*s.attrs), s.attrs.CouldDecrypt(s.ct), s.policy.String()}
 	}
 	return []sched.Scenario{
-		{Cost: 400, Name: "tkn20/EncryptDecrypt(a)||EncryptDecrypt(b) one policy", Setup: fresh, Threads: []func(interface{}) interface{}{encDec("a"), encDec("b")}},
-		{Cost: 400, Name: "tkn20/first use of labels: EncKeyDec(a)||EncKeyDec(b)", Setup: freshCold, Threads: []func(interface{}) interface{}{cold("a"), cold("b")}},
-		{Cost: 400, Name: "tkn20/Decrypt||Decrypt||Satisfaction", Setup: fresh, Threads: []func(interface{}) interface{}{decrypt, decrypt, sat}},
+		{Cost: 800, Name: "tkn20/EncryptDecrypt(a)||EncryptDecrypt(b) one policy", Setup: fresh, Threads: []func(interface{}) interface{}{encDec("a"), encDec("b")}},
+		{Cost: 800, Name: "tkn20/first use of labels: EncKeyDec(a)||EncKeyDec(b)", Setup: freshCold, Threads: []func(interface{}) interface{}{cold("a"), cold("b")}},
+		{Cost: 800, Name: "tkn20/Decrypt||Decrypt||Satisfaction", Setup: fresh, Threads: []func(interface{}) interface{}{decrypt, decrypt, sat}},
 	}
 }
 
